@@ -41,8 +41,8 @@ func init() {
 			return sc
 		},
 		Exec:       execBatch,
-		Quick:      100,
-		Thorough:   4000,
+		Quick:      300,
+		Thorough:   10000,
 		Chunk:      5,
 		TimeoutS:   150,
 		NonTrivial: func(res *Result) bool { return batchNonTrivial(res) && (res.Stats["reach.failing-lines"] > 0 || res.Stats["mode.serial"] > 0) },
